@@ -25,6 +25,9 @@ type Config struct {
 	MaxWitness   int
 	Verbose      bool
 	TimeBudget   time.Duration
+	Thorough     bool
+	Samples      int // validation samples: models of completed paths with their shown values
+	Seed         int64
 }
 
 type Event struct {
@@ -109,6 +112,7 @@ type Engine struct {
 	storeLog   []string
 
 	allEvents []Event
+	samples   []Witness
 }
 
 type shownTerm struct {
@@ -214,6 +218,7 @@ func (e *Engine) runPath(fn *ssa.Function, prefix []bool) {
 		r := recover()
 		if r == nil {
 			e.stats.Completed++
+			e.maybeSample()
 			return
 		}
 		switch x := r.(type) {
@@ -257,6 +262,26 @@ func (e *Engine) runPath(fn *ssa.Function, prefix []bool) {
 		e.runInit(pkg)
 	}
 	e.callFunction(fn, nil, nil, nil)
+}
+
+// maybeSample records a model of the completed path together with the values
+// the engine predicts for the harness's Show() calls (translator validation:
+// the driver re-executes the model natively and compares).
+func (e *Engine) maybeSample() {
+	if len(e.samples) >= e.cfg.Samples || len(e.shown) == 0 {
+		return
+	}
+	// spread samples over the exploration: take paths whose index hits a stride
+	stride := 1 + int((e.cfg.Seed%7+7)%7)
+	if e.stats.Completed%stride != 0 {
+		return
+	}
+	w := e.witness(e.pc)
+	if w.Msg != "" {
+		return
+	}
+	w.PathCond = nil
+	e.samples = append(e.samples, w)
 }
 
 func (e *Engine) runInit(pkg *ssa.Package) {
@@ -589,6 +614,7 @@ type Result struct {
 	Functions   map[string]int         `json:"functions_encoded"`
 	Models      []string               `json:"models_used"`
 	Events      []Event                `json:"events,omitempty"`
+	Samples     []Witness              `json:"validation_samples,omitempty"`
 	Solver      map[string]interface{} `json:"solver"`
 	Config      map[string]interface{} `json:"bounds"`
 	WallS       float64                `json:"wall_s"`
@@ -626,6 +652,7 @@ func (e *Engine) Result(name string, wall time.Duration) *Result {
 		"max_paths": e.cfg.MaxPaths, "map_iteration_order_symbolic": e.cfg.MapPerm,
 	}
 	r.AbortInfo = e.stats.AbortSamples
+	r.Samples = e.samples
 	return r
 }
 
